@@ -24,7 +24,7 @@ import (
 
 // CacheAction is one step of a cache-level session.
 type CacheAction struct {
-	Op     string   `json:"op"` // new|comment|title|close|open|labels|editcomment|editcreate|meta|stage|commitstaged|push|pull|remove|reopen|size|resolveall|idrename
+	Op     string   `json:"op"` // new|comment|title|close|open|labels|editcomment|editcreate|meta|stage|commitstaged|push|fetch|pull (N&1: RepoCache.Pull, N&2: even with staged operations)|remove|reopen|size|resolveall|idrename|sync
 	R      int      `json:"r"`
 	Bug    int      `json:"bug,omitempty"`
 	Text   string   `json:"text,omitempty"`
@@ -50,6 +50,8 @@ type CacheSessionResult struct {
 	Harness      string         `json:"harness_error"`
 	QueriesRun   int            `json:"queries_run"`
 	SearchHits   int            `json:"search_hits"`
+	PullsChecked int            `json:"pulls_checked"`
+	SyncsChecked int            `json:"syncs_checked"`
 }
 
 // marker makes a unique full-text token of the form [a-z]{2}[0-9]{2}[a-z]{2}.
@@ -278,6 +280,7 @@ func runCacheSession(s CacheSession) CacheSessionResult {
 	var bugs []entity.Id
 	var markers []string
 	staged := map[int]map[entity.Id]bool{0: {}, 1: {}}
+	pulledStaged := map[int]bool{} // a pull ran while operations were staged: the cache may have replaced those instances
 	unix := int64(1_700_100_000)
 
 	reported := map[string]bool{}
@@ -440,9 +443,17 @@ func runCacheSession(s CacheSession) CacheSessionResult {
 				}
 				delete(staged[a.R], id)
 				if cerr := b.Commit(); cerr != nil {
+					if pulledStaged[a.R] {
+						// whether operations staged before a pull survive it is not something the property speaks about
+						res.ActionErrors = append(res.ActionErrors, "commit of operations staged before a pull: "+errClass(cerr))
+						continue
+					}
 					fail("staged-commit-fails:"+errKey(cerr.Error()), fmt.Sprintf("r%d bug %s: committing operations staged earlier fails: %v", a.R, id.Human(), cerr))
+					continue
 				}
+				commit(b, id)
 			}
+			pulledStaged[a.R] = false
 		case "resolveall":
 			for _, id := range sd.c.Bugs().AllIds() {
 				if _, rerr := sd.c.Bugs().Resolve(id); rerr != nil {
@@ -457,23 +468,71 @@ func runCacheSession(s CacheSession) CacheSessionResult {
 			if len(staged[a.R]) == 0 {
 				_, err = sd.c.Push("origin")
 			}
+		case "fetch":
+			_, err = sd.c.Fetch("origin")
 		case "pull":
 			if len(staged[a.R]) > 0 {
-				break
-			}
-			if _, err = sd.c.Fetch("origin"); err != nil {
-				break
-			}
-			for mr := range sd.c.MergeAll("origin") {
-				res.PullStatuses[statusName(mr.Status)]++
-				if mr.Err != nil {
-					err = mr.Err
+				if a.N&2 == 0 {
+					break
 				}
+				pulledStaged[a.R] = true
+			}
+			if a.N&1 == 1 {
+				err = sd.c.Pull("origin")
+				res.PullStatuses["via-RepoCache.Pull"]++
+			} else {
+				if _, err = sd.c.Fetch("origin"); err != nil {
+					break
+				}
+				for mr := range sd.c.MergeAll("origin") {
+					res.PullStatuses[statusName(mr.Status)]++
+					if mr.Err != nil {
+						err = mr.Err
+					}
+				}
+			}
+			if err != nil {
+				break
+			}
+			res.PullsChecked++
+			for _, f := range checkCachePull(sd, staged[a.R]) {
+				fail(f[0], fmt.Sprintf("r%d after step %d (pull): %s", a.R, step, f[1]))
 			}
 			for _, id := range sd.c.Bugs().AllIds() {
 				if h, rerr := sd.rep.Repo.ResolveRef("refs/bugs/" + id.String()); rerr == nil {
 					sd.pullH[id] = string(h)
 				}
+			}
+		case "sync":
+			// both sides commit what is staged, then exchange until nothing moves; then they must show the same bugs
+			for si := range sides {
+				for id := range staged[si] {
+					if b, rerr := sides[si].c.Bugs().Resolve(id); rerr == nil {
+						_ = b.CommitAsNeeded()
+					}
+					delete(staged[si], id)
+				}
+			}
+			quiet := false
+			for round := 0; round < 6 && !quiet; round++ {
+				before := refsDigest(sides)
+				for _, x := range sides {
+					if perr := x.c.Pull("origin"); perr != nil {
+						res.ActionErrors = append(res.ActionErrors, "sync pull: "+errClass(perr))
+					}
+					if _, perr := x.c.Push("origin"); perr != nil {
+						res.ActionErrors = append(res.ActionErrors, "sync push: "+errClass(perr))
+					}
+				}
+				quiet = refsDigest(sides) == before
+			}
+			if !quiet {
+				res.ActionErrors = append(res.ActionErrors, "sync: no quiescence after 6 rounds")
+				break
+			}
+			res.SyncsChecked++
+			for _, f := range checkCacheConvergence(sides) {
+				fail(f[0], fmt.Sprintf("after step %d (sync to quiescence): %s", step, f[1]))
 			}
 		case "remove":
 			if _, id, ok := resolveBug(); ok && len(staged[a.R]) == 0 {
@@ -567,8 +626,10 @@ func c11Session(rng *rand.Rand, n int, name string) CacheSession {
 			a.Op, a.N = "size", 1+rng.Intn(3)
 		case x < 84:
 			a.Op = "push"
+		case x < 86:
+			a.Op = "fetch"
 		case x < 94:
-			a.Op = "pull"
+			a.Op, a.N = "pull", rng.Intn(4)
 		case x < 96:
 			a.Op = "remove"
 		case x < 98:
@@ -579,7 +640,8 @@ func c11Session(rng *rand.Rand, n int, name string) CacheSession {
 		acts = append(acts, a)
 	}
 	acts = append(acts, CacheAction{Op: "commitstaged", R: 0}, CacheAction{Op: "commitstaged", R: 1},
-		CacheAction{Op: "pull", R: 0}, CacheAction{Op: "push", R: 0}, CacheAction{Op: "pull", R: 1}, CacheAction{Op: "comment", R: 1, Bug: 0}, CacheAction{Op: "reopen", R: 0})
+		CacheAction{Op: "pull", R: 0}, CacheAction{Op: "push", R: 0}, CacheAction{Op: "pull", R: 1}, CacheAction{Op: "comment", R: 1, Bug: 0}, CacheAction{Op: "reopen", R: 0},
+		CacheAction{Op: "sync", R: 0})
 	s.Actions = acts
 	return s
 }
@@ -592,6 +654,9 @@ func c11Targeted() []CacheSession {
 		{Name: "pull-diverged-then-edit", Actions: []CacheAction{{Op: "new", R: 0}, {Op: "push", R: 0}, {Op: "pull", R: 1}, {Op: "comment", R: 0, Bug: 0}, {Op: "comment", R: 1, Bug: 0}, {Op: "title", R: 1, Bug: 0}, {Op: "push", R: 0}, {Op: "pull", R: 1}, {Op: "comment", R: 1, Bug: 0}, {Op: "push", R: 1}, {Op: "pull", R: 0}, {Op: "editcomment", R: 0, Bug: 0}}},
 		{Name: "identity-update-pulled", Actions: []CacheAction{{Op: "new", R: 0}, {Op: "push", R: 0}, {Op: "pull", R: 1}, {Op: "idrename", R: 0, Text: "II"}, {Op: "push", R: 0}, {Op: "pull", R: 1}, {Op: "reopen", R: 1}}},
 		{Name: "eviction-with-staged", Actions: []CacheAction{{Op: "new", R: 0}, {Op: "new", R: 0}, {Op: "new", R: 0}, {Op: "new", R: 0}, {Op: "size", R: 0, N: 1}, {Op: "stage", R: 0, Bug: 0}, {Op: "resolveall", R: 0}, {Op: "stage", R: 0, Bug: 2}, {Op: "resolveall", R: 0}, {Op: "commitstaged", R: 0}, {Op: "comment", R: 0, Bug: 1}, {Op: "reopen", R: 0}}},
+		{Name: "fetch-then-pull", Actions: []CacheAction{{Op: "new", R: 0}, {Op: "push", R: 0}, {Op: "pull", R: 1, N: 1}, {Op: "comment", R: 0, Bug: 0}, {Op: "new", R: 0}, {Op: "push", R: 0}, {Op: "fetch", R: 1}, {Op: "pull", R: 1, N: 1}, {Op: "comment", R: 1, Bug: 0}, {Op: "sync", R: 0}}},
+		{Name: "pull-with-staged-operations", Actions: []CacheAction{{Op: "new", R: 0}, {Op: "push", R: 0}, {Op: "pull", R: 1}, {Op: "comment", R: 0, Bug: 0}, {Op: "push", R: 0}, {Op: "stage", R: 1, Bug: 0}, {Op: "pull", R: 1, N: 2}, {Op: "commitstaged", R: 1}, {Op: "push", R: 1}, {Op: "sync", R: 0}}},
+		{Name: "pull-into-loaded-bug-then-edit", Actions: []CacheAction{{Op: "new", R: 0}, {Op: "push", R: 0}, {Op: "pull", R: 1, N: 1}, {Op: "comment", R: 1, Bug: 0}, {Op: "push", R: 1}, {Op: "comment", R: 0, Bug: 0}, {Op: "pull", R: 0, N: 1}, {Op: "title", R: 0, Bug: 0}, {Op: "push", R: 0}, {Op: "sync", R: 0}}},
 		{Name: "remove-then-pull", Actions: []CacheAction{{Op: "new", R: 0}, {Op: "new", R: 0}, {Op: "push", R: 0}, {Op: "pull", R: 1}, {Op: "remove", R: 1, Bug: 0}, {Op: "reopen", R: 1}, {Op: "comment", R: 1, Bug: 1}}},
 	}
 }
@@ -681,6 +746,136 @@ func runC11(tier, replay string) int {
 	}
 	return r.Finish("sessions of cache-level actions by two users on two repositories sharing a remote (targeted pull/evict/remove sessions + seeded random ones); after every action, on every quiescent side, the live cache is compared with a cache rebuilt from a copy of the git data without cache directory: id lists, every excerpt field, resolved snapshots, identities, valid labels, 25 fixed queries and a full-text query per planted marker token; non-trivial = more than 5 comparisons; distinct = (set of action kinds done, merge statuses seen)",
 		6, []string{"quiescent = no bug with uncommitted operations on that side", "full-text search is only asserted on planted marker tokens", "query results are compared as exact lists (sort ties are broken by id since the C20 fix)"})
+}
+
+// checkCachePull is the C02 oracle at cache level: once a pull has returned without error, every bug and identity
+// held by the remote-tracking refs is present locally with all its operations / versions, in the git data and in
+// what the cache serves. Bugs with operations staged on this side are only checked in the git data.
+func checkCachePull(sd *cacheSide, staged map[entity.Id]bool) (out [][2]string) {
+	refs, err := sd.rep.Repo.ListRefs("refs/remotes/origin/bugs/")
+	if err != nil {
+		return nil
+	}
+	sort.Strings(refs)
+	for _, ref := range refs {
+		id := entity.Id(ref[strings.LastIndex(ref, "/")+1:])
+		rh, ok, rerr := gitraw.ReadRef(sd.rep.Repo, ref)
+		if !ok || rerr != nil {
+			continue
+		}
+		lh, lok, lerr := gitraw.ReadRef(sd.rep.Repo, "refs/bugs/"+id.String())
+		if !lok || lerr != nil {
+			out = append(out, [2]string{"cachepull:remote-bug-absent-after-pull", fmt.Sprintf("bug %s is held by the remote-tracking ref but has no readable local ref after the pull returned", id.Human())})
+			continue
+		}
+		local := lh.OpIds()
+		missing := ""
+		for _, o := range world.SortedKeys(rh.OpIds()) {
+			if !local[o] {
+				missing = o
+			}
+		}
+		if missing != "" {
+			out = append(out, [2]string{"cachepull:remote-op-missing-from-local-ref", fmt.Sprintf("bug %s: operation %s of the fetched remote version is not in the local ref after the pull returned", id.Human(), short(missing))})
+			continue
+		}
+		if staged[id] {
+			continue
+		}
+		b, berr := sd.c.Bugs().Resolve(id)
+		if berr != nil {
+			out = append(out, [2]string{"cachepull:remote-bug-not-served-after-pull", fmt.Sprintf("bug %s was pulled but the cache does not resolve it: %v", id.Human(), berr)})
+			continue
+		}
+		served := map[string]bool{}
+		for _, o := range b.Snapshot().Operations {
+			served[o.Id().String()] = true
+		}
+		for _, o := range world.SortedKeys(rh.OpIds()) {
+			if !served[o] {
+				out = append(out, [2]string{"cachepull:remote-op-missing-from-served-bug", fmt.Sprintf("bug %s: the cache serves the bug without operation %s of the remote version it has just pulled", id.Human(), short(o))})
+				break
+			}
+		}
+	}
+	irefs, _ := sd.rep.Repo.ListRefs("refs/remotes/origin/identities/")
+	for _, ref := range irefs {
+		id := ref[strings.LastIndex(ref, "/")+1:]
+		rv, ok, rerr := gitraw.ReadIdentity(sd.rep.Repo, ref)
+		if !ok || rerr != nil {
+			continue
+		}
+		lv, lok, lerr := gitraw.ReadIdentity(sd.rep.Repo, "refs/identities/"+id)
+		if !lok || lerr != nil {
+			out = append(out, [2]string{"cachepull:remote-identity-absent-after-pull", fmt.Sprintf("identity %s is held by the remote-tracking ref but not locally after the pull returned", entity.Id(id).Human())})
+			continue
+		}
+		// (each side only mutates its own identity in these sessions: the remote chain is never diverged from the local one)
+		if len(lv) < len(rv) {
+			out = append(out, [2]string{"cachepull:remote-identity-version-missing", fmt.Sprintf("identity %s: %d versions locally, %d in the fetched remote chain", entity.Id(id).Human(), len(lv), len(rv))})
+		}
+	}
+	return out
+}
+
+// refsDigest is the state of all git-bug refs of both sides.
+func refsDigest(sides []*cacheSide) string {
+	var sb strings.Builder
+	for _, sd := range sides {
+		for _, pre := range []string{"refs/bugs/", "refs/identities/", "refs/remotes/origin/"} {
+			refs, _ := sd.rep.Repo.ListRefs(pre)
+			sort.Strings(refs)
+			for _, ref := range refs {
+				h, _ := sd.rep.Repo.ResolveRef(ref)
+				sb.WriteString(ref + "=" + string(h) + ";")
+			}
+		}
+		sb.WriteString("|")
+	}
+	return sb.String()
+}
+
+// checkCacheConvergence is the C01 oracle at cache level: at quiescence both long-lived caches serve the same bugs,
+// each with the same operations in the same order and the same compiled state.
+func checkCacheConvergence(sides []*cacheSide) (out [][2]string) {
+	ids := map[entity.Id]bool{}
+	for _, sd := range sides {
+		for _, id := range sd.c.Bugs().AllIds() {
+			ids[id] = true
+		}
+	}
+	var all []string
+	for id := range ids {
+		all = append(all, id.String())
+	}
+	sort.Strings(all)
+	for _, sid := range all {
+		id := entity.Id(sid)
+		var renders, ops []string
+		for si, sd := range sides {
+			b, err := sd.c.Bugs().Resolve(id)
+			if err != nil {
+				out = append(out, [2]string{"cacheconverge:bug-missing-on-one-side", fmt.Sprintf("bug %s is not served by r%d at quiescence: %v", id.Human(), si, err)})
+				renders = nil
+				break
+			}
+			snap := b.Snapshot()
+			var o []string
+			for _, op := range snap.Operations {
+				o = append(o, op.Id().String())
+			}
+			ops = append(ops, strings.Join(shortAll(o), ","))
+			renders = append(renders, world.JSON(world.RenderSnapshot(snap)))
+		}
+		if len(renders) == 2 {
+			if ops[0] != ops[1] {
+				out = append(out, [2]string{"cacheconverge:operations-differ", fmt.Sprintf("bug %s at quiescence: r0 serves operations [%s], r1 serves [%s]", id.Human(), ops[0], ops[1])})
+			} else if renders[0] != renders[1] {
+				out = append(out, [2]string{"cacheconverge:state-differs", fmt.Sprintf("bug %s at quiescence: same operations, different compiled state", id.Human())})
+			}
+		}
+	}
+	return out
 }
 
 func fileExists(p string) bool {
